@@ -43,9 +43,10 @@ RxChecks ==
 TFeed  == IsEv("rx") /\ Ev.why = "loop" /\ Tag("C06.feed.enabled", pend /\ out = <<Ev.ch>>) /\ WFeed /\ RxChecks /\ Adv
 TNoise == IsEv("rx") /\ Ev.why = "noise" /\ Tag("C06.noise.enabled", BetweenFrames /\ Ev.ch # FLAG) /\ WNoise(Ev.ch) /\ RxChecks /\ Adv
 TOver  == IsEv("over") /\ Tag("C06.over.enabled", BetweenFrames) /\ WOverlong(Ev.dlci, Ev.body) /\ Adv
+TForeign == IsEv("foreign") /\ Tag("C06.foreign.enabled", BetweenFrames /\ Ev.dlci \notin handlers) /\ WForeign(Ev.dlci, Ev.body) /\ Adv
 TInj   == IsEv("rx") /\ Ev.why = "inj" /\ Tag("C06.inj.enabled", inj # <<>> /\ ~pend /\ Head(inj) = Ev.ch) /\ WInject /\ RxChecks /\ Adv
 
-TNext == TReg \/ TSend \/ TPull \/ TFeed \/ TNoise \/ TOver \/ TInj
+TNext == TReg \/ TSend \/ TPull \/ TFeed \/ TNoise \/ TOver \/ TForeign \/ TInj
 TSpec == TInit /\ [][TNext]_<<wvars, kvars>>
 Post == WriteVerdicts
 =============================================================================
